@@ -92,8 +92,33 @@ Forgeries(L) ==
      \cup (IF DigestLen(S.integAlg) > S.integLen
            THEN { sc("authcode-untruncated", Pkt(192, Var("sidM"), good, LAMBDA s : Hmac(S.integAlg, Ref("K1"), s))) } ELSE {})
 
+\* ------------------------------------------------ a party that knows the session keys (C05)
+\* correctly signed and encrypted packets around a malformed inner message: every truncation of the message, a
+\* checksum-valid response too short to hold a completion code, wrong checksums, and malformed confidentiality payloads
+KeyedPkt(payload) == Pkt(192, Var("sidM"), payload, GoodAuth)
+Keyed(L) ==
+  LET full == MsgRspBytes(129, NetFn + 1, 0, 1, 0, Cmd, 0, ValA(L))
+      sc(name, t) == [Script("keyed-" \o ToString(L) \o "-" \o name, L, t, name, FALSE) EXCEPT !.steps[1].exp.prop = "C05"]
+      enc(m) == EncPayload(B(m), ConfPadBytes(Len(m)))
+      h1 == <<129, (NetFn + 1) * 4>>
+      short7 == h1 \o <<Checksum(h1)>> \o <<32, 4, Cmd>> \o <<Checksum(<<32, 4, Cmd>>)>>
+  IN { sc("msg-trunc-" \o ToString(n), KeyedPkt(enc(Take(full, n)))) : n \in 0..(Len(full) - 1) }
+     \cup { sc("msg-7-bytes-valid-checksums", KeyedPkt(enc(short7))),
+            sc("msg-checksum1-wrong", KeyedPkt(enc([full EXCEPT ![3] = (@ + 1) % 256]))),
+            sc("msg-checksum2-wrong", KeyedPkt(enc([full EXCEPT ![Len(full)] = (@ + 1) % 256]))),
+            sc("msg-request-netfn", KeyedPkt(enc(MsgReqBytes(129, NetFn, 0, 32, 1, 0, Cmd, ValA(L))))),
+            sc("payload-iv-only", KeyedPkt(B(Iv(1)))),
+            sc("payload-empty", KeyedPkt(B(<<>>))),
+            sc("payload-17-bytes", KeyedPkt(B(Iv(1) \o <<1>>))),
+            sc("payload-31-bytes", KeyedPkt(Trunc(enc(full), 31))),
+            \* authentic but unencrypted: a BMC may clear the encrypted bit per packet; not asserted either way (A allowed)
+            [Script("keyed-" \o ToString(L) \o "-unencrypted-flag-authentic", L, Pkt(64, Var("sidM"), B(full), GoodAuth), "unencrypted-authentic", TRUE) EXCEPT !.steps[1].exp.prop = "C05"],
+            sc("unencrypted-flag-short-msg", Pkt(64, Var("sidM"), B(short7), GoodAuth)),
+            sc("payload-type-oem", Pkt(194, Var("sidM"), B(<<1, 2, 3, 4, 5, 6>>) , GoodAuth)),
+            sc("payload-type-rakp2", Pkt(211, Var("sidM"), enc(full), GoodAuth)) }
+
 Lengths == IF Tier = "thorough" THEN {0, 1, 5, 8, 15, 16, 23} ELSE {(Seed * 3) % 16, 8 + ((Seed * 5) % 16)}
-Scripts == UNION { Flips(L) \cup Truncs(L) \cup Forgeries(L) : L \in Lengths }
+Scripts == UNION { Flips(L) \cup Truncs(L) \cup Forgeries(L) \cup Keyed(L) : L \in Lengths }
 
 Header == [header |-> TRUE, family |-> "forge", defs |-> SessionDefs(S), stable |-> <<"SIK", "K1", "K2">>,
            session |-> SessionRecipes(S), prefixes |-> [hs |-> HandshakeSteps(S)]]
